@@ -1167,6 +1167,9 @@ func (m *Machine) flatten(v Val, t types.Type) []*Term {
 	case *types.Pointer:
 		if _, isStruct := u.Elem().Underlying().(*types.Struct); isStruct {
 			switch p := v.(type) {
+			case *NilV:
+				// a nil pointer field stored by value (e.g. the zero value of a map element): the zero pointee (nil-ness is not kept, A-VALSEQ)
+				return m.flatten(m.E.zeroValue(u.Elem()), u.Elem())
 			case *PtrV, *SymPtrV:
 				if pp, isP := p.(*PtrV); isP && pp.Nil != nil {
 					panic(unsupported("a possibly-nil pointer stored by value"))
